@@ -32,17 +32,11 @@ theorem stage1_shape (e : Nat) (cp : List Nat) (pe : Nat) (pp : List Nat) :
     (∀ acc, ∃ acc2, M.stage1 e cp pe pp acc = .ok (some acc2)) := by
   unfold Ctx.stage1
   simp only []
-  split
-  · split
-    · split
-      · exact .inr (.inr fun acc => ⟨_, rfl⟩)
-      · split
-        · exact .inr (.inr fun acc => ⟨_, rfl⟩)
-        · exact .inl ⟨_, fun _ => rfl⟩
-    · split
-      · exact .inr (.inl fun _ => rfl)
-      · exact .inr (.inr fun acc => ⟨_, rfl⟩)
-  · exact .inr (.inr fun acc => ⟨_, rfl⟩)
+  repeat' split
+  all_goals first
+    | exact .inl ⟨_, fun _ => rfl⟩
+    | exact .inr (.inl fun _ => rfl)
+    | exact .inr (.inr fun acc => ⟨_, rfl⟩)
 
 theorem upaStep_snd (e : Nat) (cp : List Nat) (pe : Nat) (pp : List Nat) (acc acc' : Acc) :
     (M.upaStep e cp pe pp acc).2 = (M.upaStep e cp pe pp acc').2 := by
@@ -58,7 +52,7 @@ theorem upaStep_snd (e : Nat) (cp : List Nat) (pe : Nat) (pp : List Nat) (acc ac
 /-- the error raised for one entry of `paths` -/
 def Ctx.pairErr (e : Nat) (cp : List Nat) (en : Entry) : Option CMErr :=
   if !M.consistent e en.leaf then some (.edc e en.leaf)
-  else if en.leaf == e || !M.overlap en.leaf e then none
+  else if (!M.fx.shared && en.leaf == e) || !M.overlap en.leaf e then none
   else (M.upaStep e cp en.leaf en.path {}).2
 
 /-- the inner loop raises the first error of the entries, whatever was accumulated -/
@@ -231,13 +225,13 @@ theorem SeqCtx.pairErr_none (h : SeqCtx M r items) {p1 midl p2 : List FItem} {it
   have hij : it.id ≠ jt.id := (List.pairwise_append.mp hids).2.2 it (by simp) jt (by simp)
   unfold Ctx.pairErr
   simp only [h.consistent hit hjt, Bool.not_true, Bool.false_eq_true, if_false, h.overlap hit hjt,
-    beq_eq_false_iff_ne.mpr hij, Bool.false_or]
+    beq_eq_false_iff_ne.mpr hij, Bool.and_false, Bool.false_or]
   by_cases hn : it.name = jt.name
   · simp only [hn, beq_self_eq_true, Bool.not_true, Bool.false_eq_true, if_false, true_and]
     by_cases hu : M.univocal it.id = true
     · have hu' := hu
       rw [h.univocal hit, beq_iff_eq] at hu'
-      simp [Ctx.upaStep, Ctx.stage1, h.rootSeq, hu, hu']
+      simp [Ctx.upaStep, Ctx.stage1, h.rootSeq, h.rootHi, hu, hu']
     · have hu0 : M.univocal it.id = false := by simpa using hu
       have hu' : it.hi ≠ some it.lo := by
         intro hc
@@ -245,7 +239,7 @@ theorem SeqCtx.pairErr_none (h : SeqCtx M r items) {p1 midl p2 : List FItem} {it
         simp at hu0
       have hd := h.distinguishable hsplit hu0
       simp only [List.cons_append, List.nil_append] at hd
-      simp [Ctx.upaStep, Ctx.stage1, h.rootSeq, hu0, hu', stage2_snd, Ctx.stage2Err, hd, h.notAny hit, h.notAny hjt]
+      simp [Ctx.upaStep, Ctx.stage1, h.rootSeq, h.rootHi, hu0, hu', stage2_snd, Ctx.stage2Err, hd, h.notAny hit, h.notAny hjt]
   · simp [hn]
 
 /-! ### the `paths` dict on a flat sequence -/
